@@ -552,6 +552,7 @@ def gen_world_case(rng):
             else:
                 name, sc = rng.choice(templ)
             sc.poll, sc.prate, sc.ptimeout, sc.autopong, sc.ctimeout = poll, prate, ptimeout, True, 30
+            sc.tdiv, sc.zero = 1, False       # persist() is called with whole-second arguments here
         scs.append(sc)
         names.append(name)
     # constructor arguments belong to the object, not to a connection
